@@ -44,7 +44,9 @@ inline std::string TS(uint64_t t) {return (t == kNever) ? std::string("never") :
 inline Plan Gen(uint64_t seed)
 {
    Rng cfg(seed, "config"), wl(seed, "workload");
-   Plan p; p.push_back("cfg prop=C20S");
+   // stall: the output stall limit of every session's transport (as a TCP socket's 3 minutes; 0 = none): a session whose queued output has not moved for that long is dropped
+   static const uint64_t stalls[] = {0, 180000000, 180000000, 40, 5000}; Rng sr(seed, "stall");
+   Plan p; p.push_back("cfg prop=C20S stall=" + U(stalls[sr.below(5)]));
    int nextId = 1; std::vector<int> alive; std::vector<bool> sock(400, false);
    auto tm = [&](Rng & r) -> std::string {const uint32_t k = r.below(10); if (k == 0) return "never"; if (k == 1) return "+0"; if (k == 2) return "0"; return "+" + U(1 + r.below(r.oneIn(3) ? 100000 : 50));};
    const int initial = 1 + (int) wl.below(12);
@@ -92,7 +94,7 @@ class PSession : public AbstractReflectSession
 public:
    PSession(H * h, int id) : _h(h), _id(id) {}
    virtual void MessageReceivedFromGateway(const MessageRef &, void *) {}
-   virtual DataIORef CreateDataIO(const ConstSocketRef & s) {return DataIORef(new SimDataIO(&_in, &_out, s));}
+   virtual DataIORef CreateDataIO(const ConstSocketRef & s);
    virtual uint64 GetPulseTime(const PulseArgs & args);
    virtual void Pulse(const PulseArgs & args);
    virtual status_t AttachedToServer();
@@ -216,7 +218,7 @@ struct H
       if ((s[0] < '0')||(s[0] > '9')) return false; out = ToU(s); return true;
    }
    int AllocId() {while((nextSpawnId < 399)&&(sh.find(nextSpawnId) != sh.end())) nextSpawnId++; return (nextSpawnId < 399) ? nextSpawnId : -1;}
-   std::set<int> blockedFds;
+   std::set<int> blockedFds; uint64_t stallLimit = 0;
    void Block(int id, bool on)
    {
       auto si = sess.find(id); auto fi = fdOf.find(id); if ((si == sess.end())||(fi == fdOf.end())) return;
@@ -285,6 +287,15 @@ struct H
 };
 H * H::s_cur = NULL;
 
+class StallDataIO : public SimDataIO
+{
+public:
+   StallDataIO(SimStream * in, SimStream * out, const ConstSocketRef & s, uint64 limit) : SimDataIO(in, out, s), _limit(limit) {}
+   virtual uint64 GetOutputStallLimit() const {return _limit;}
+private:
+   uint64 _limit;
+};
+inline DataIORef PSession::CreateDataIO(const ConstSocketRef & s) {return DataIORef(new StallDataIO(&_in, &_out, s, _h->stallLimit ? _h->stallLimit : MUSCLE_TIME_NEVER));}
 inline uint64 PSession::GetPulseTime(const PulseArgs & a) {const uint64 mine = _h->OnQuery(_id, a.GetCallbackTime(), a.GetScheduledTime()); return muscleMin(mine, AbstractReflectSession::GetPulseTime(a));}
 inline void PSession::Pulse(const PulseArgs & a) {_h->OnPulse(_id, a.GetCallbackTime(), a.GetScheduledTime()); AbstractReflectSession::Pulse(a);}
 inline status_t PSession::AttachedToServer() {const status_t r = AbstractReflectSession::AttachedToServer(); if (r.IsOK()) {Shadow & s = _h->sh[_id]; s.attached = s.everAttached = true;} return r;}
@@ -299,6 +310,7 @@ inline void PPolicy::Pulse(const PulseArgs & a) {_h->OnPulse(_id, a.GetCallbackT
 inline void Exec(const Plan & plan, RunResult & res)
 {
    H h(res);
+   {Cfg c0(plan); h.stallLimit = (uint64_t) c0.i("stall", 0);}
    h.AddSession(0, true, -1);   // a permanent session with a socket: the server always has something to wait on
    size_t opIdx = 0;
    for (const std::string & line : plan)
